@@ -65,10 +65,12 @@ def rule_break(ctx):
         f = dict(va[2])["formulas"]
         ok = f[:2] == ("call", "Iterator::map") and f[2][0] == ("call", "Iterator::enumerate", (("fieldof", ("call", "ht::break_equivalences_formula", (("place", "annotated_formula.formula"),)), "formulas"),))
         cl = f[2][1]
-        if ok and cl[0] == "closure":
-            g = dict(cl[2][2]) if cl[2][:2] == ("ctor", "AnnotatedFormula") else {}
-            ok = g.get("role") == ("place", "annotated_formula.role") and g.get("direction") == ("place", "annotated_formula.direction") and g.get("formula") == ("param", "formula") \
-                and g.get("name", ("",))[0] == "format"
+        if ok and cl[0] == "closure" and len(cl[1]) == 1:
+            # the closure applied to the pair (index, part): whichever way its parameter is destructured
+            one = sym.subst(cl[2], {cl[1][0]: ("list", (("param", "$i"), ("param", "$part")))})
+            g = dict(one[2]) if one[:2] == ("ctor", "AnnotatedFormula") else {}
+            ok = g.get("role") == ("place", "annotated_formula.role") and g.get("direction") == ("place", "annotated_formula.direction") and g.get("formula") == ("param", "$part") \
+                and g.get("name") == ("format", "{}_{}", (("place", "annotated_formula.name"), ("param", "$i")))
         else:
             ok = False
     ctx.add("TPL", "break:annotated", ok, ctx.site(a), "the annotated version keeps role and direction of the original for every part", construct=va)
